@@ -191,6 +191,9 @@ class C04(Prop):
     def gen(self, rng, tier, seed):
         cfg = gen.gen_base_cfg(rng, seed, nwatch=(2, 2, 3, 4),
                                respawn=rng.choice([True, True, True, False]),
+                               # workers with children and grandchildren of
+                               # their own in a sixth of the cases
+                               kids=rng.random() < 0.17,
                                autostart_p=0.85, max_age_p=0.1,
                                stop_children_p=0.1,
                                stop_signals=(15, 15, 15, 2, 10),
